@@ -380,6 +380,7 @@ class Unit:
                + "".join(self.cfg.get("unit", {}).get("crate_attrs", [])), kind="gen")
         g.emit("use vstd::prelude::*;", kind="gen")
         g.emit("verus! {", kind="gen")
+        self._emit_file(g, os.path.join(VERIF, "vx", "prelude", "stdspec.rs"), "prelude")
         for pre in self.cfg.get("unit", {}).get("preludes", ["common"]):
             p = os.path.join(VERIF, "vx", "prelude", pre + ".rs")
             self._emit_file(g, p, "prelude")
